@@ -54,6 +54,8 @@ pub enum CostError {
     EnforceWalletValueFailed(StatementIdx),
     #[error("circuits are not supported for old gas solver")]
     CircuitsNotSupported,
+    #[error("the gas solvers disagree")]
+    SolversMismatch,
 }
 
 /// Helper to implement the `InvocationCostInfoProvider` for the equation generation.
